@@ -275,4 +275,9 @@ def obligations(tier):
     # a client disconnect or stall at any byte is never mistaken for the end of the message or for a successful write: the daemons' saferead()/
     # safewrite() wrappers and the timeout units below them (harness/C09/safeio.c, timeout_rw.c)
     from vlib import borrow; obls += borrow("C09", ["timeoutread_unit", "timeoutwrite_unit", "smtpd_safeio"], tier)
+    # "a refused or cut-off request queues nothing" rests on qmail-queue refusing an envelope that ends without its final
+    # terminator (qmail.c withholds exactly that byte after a failure; qmail-queue.c die_read is an anchor of this property):
+    # the whole-main() obligation of C01 is decided as part of this check as well.  kills: recipient loop of qmail-queue.c taking
+    # end of input at a record boundary for the terminator (seed round 3, C07 #2)
+    obls += [o for o in borrow("C01", ["queue_order"], tier) if True]
     return obls
